@@ -118,7 +118,7 @@ func genUnm(r *rand.Rand, n int, tier string, out *bufio.Writer) {
 			if r.Intn(10) == 0 {
 				tail = 1
 			}
-			fmt.Fprintf(out, "unm %s p %d %d %s\n", o, tail, pick(r, []int{0, 0, 1, 5, 100}), hx(data))
+			fmt.Fprintf(out, "unm %s p %d %d %s\n", o, tail, pick(r, []int{0, 0, 1, 5, 100, -3, -100, -1000000}), hx(data))
 			continue
 		}
 		// per-record gzip
@@ -206,6 +206,10 @@ func readStream(o ropts, data []byte, bad bool, chunk int) string {
 			rec.Close()
 		default:
 			obs = append(obs, fmt.Sprintf("off=%d:none:%s;f=%s", off, classify(err), kinds(v)))
+			// C04 / C06: the offset that comes with io.EOF never lies beyond the stream
+			if !bad && classify(err) == "eoh" && off > int64(len(data)) {
+				obs = append(obs, fmt.Sprintf("EOF-OFFSET@%d/%d", off, len(data)))
+			}
 		}
 		if err != nil {
 			break
@@ -253,6 +257,9 @@ func runUnm(toks []string) (string, string) {
 			}
 		}
 		data = materialize(items)
+		if len(data)%3 == 1 {
+			chunk = -4096 // the last bytes arrive together with io.EOF
+		}
 	}
 	if tooManyHangs() {
 		return "SKIPPED", "-"
@@ -264,6 +271,13 @@ func runUnm(toks []string) (string, string) {
 		var obs string
 		if p := catch(func() { obs = readStream(o, data, bad, chunk) }); p != "" {
 			obs = "PANIC " + p
+		} else if chunk != 0 && !bad {
+			// C04/C05: records, offsets and findings do not depend on how the source delivers its
+			// bytes (chunk sizes; last bytes together with io.EOF or followed by it)
+			var plain string
+			if p := catch(func() { plain = readStream(o, data, false, 0) }); p == "" && plain != obs {
+				obs += "|DELIVERY:" + plain
+			}
 		}
 		done <- obs
 	}()
@@ -287,6 +301,12 @@ func runUnm(toks []string) (string, string) {
 		}
 		if i := strings.Index(obs, "|REOPEN-MISMATCH"); i >= 0 {
 			return strings.Replace(obs, obs[i:i+strings.Index(obs[i+1:]+"|", "|")+1], "", 1), "FAIL:reopen-mismatch:a fresh reader opened at a reported offset does not return the record reported there: " + obs[i+1:i+40]
+		}
+		if i := strings.Index(obs, "|DELIVERY:"); i >= 0 {
+			return obs[:i], "FAIL:delivery-dependent:reading the same bytes from a source that delivers them differently gives different results; from a plain reader: " + obs[i+10:]
+		}
+		if i := strings.Index(obs, "|EOF-OFFSET"); i >= 0 {
+			return obs[:i], "FAIL:eof-offset:end of file is reported at an offset that is not the end of the stream: " + obs[i+1:]
 		}
 		if strings.Contains(obs, "NOPROGRESS") {
 			return obs, "FAIL:no-progress:Next returned a record without consuming input"
